@@ -69,6 +69,20 @@ func corpus() []*lsx.Hist {
 	}
 }
 
+// volumes of the thorough tier; the -race build is an order of magnitude slower
+func thoroughHist() int {
+	if lsx.RaceEnabled {
+		return 2000
+	}
+	return 6000
+}
+func thoroughConc() int {
+	if lsx.RaceEnabled {
+		return 50
+	}
+	return 60
+}
+
 func main() {
 	if pf := os.Getenv("VERIF_PROF"); pf != "" {
 		f, _ := os.Create(pf)
@@ -158,7 +172,7 @@ func main() {
 		run.Replay = ""
 	}
 
-	for i := 0; i < run.N(150, 6000); i++ {
+	for i := 0; i < run.N(150, thoroughHist()); i++ {
 		g, err := lsx.NewGen(run.R.Fork(uint64(i)), "api", bigCap, false)
 		if err != nil {
 			panic(err)
@@ -177,7 +191,7 @@ func main() {
 	}
 	// concurrency layer: N single-chunk Puts of one new address released together while a large
 	// batched Put holds batchMu (both non-pin modes; request mode also under a file context)
-	for i := 0; i < run.N(6, 60); i++ {
+	for i := 0; i < run.N(6, thoroughConc()); i++ {
 		cc := lsx.ConcCase{Kind: "conc-put", Seed: run.R.U64(), Mode: []int{1, 0, 0}[i%3], Ctx: i%3 == 2,
 			Threads: 2 + run.R.Intn(4), Rounds: run.N(5, 12)}
 		lsx.ConcPuts(run, cc)
